@@ -152,10 +152,12 @@ func ApplyInclude(ctx context.Context, workingDir string, environment types.Mapp
 			ConfigFiles: types.ToConfigFiles(r.Path),
 			Environment: environment.Clone().Merge(envFromFile),
 		}
-		loadOptions.Interpolate = &interp.Options{
-			Substitute:      options.Interpolate.Substitute,
-			LookupValue:     config.LookupEnv,
-			TypeCastMapping: options.Interpolate.TypeCastMapping,
+		if options.Interpolate != nil {
+			loadOptions.Interpolate = &interp.Options{
+				Substitute:      options.Interpolate.Substitute,
+				LookupValue:     config.LookupEnv,
+				TypeCastMapping: options.Interpolate.TypeCastMapping,
+			}
 		}
 		imported, err := loadYamlModel(ctx, config, loadOptions, &cycleTracker{}, included)
 		if err != nil {
